@@ -16,7 +16,7 @@ CONSTANTS
     BadKinds,    \* kinds of wrong proofs (flip, drop, add, random, short)
     BadAuths,    \* classes of notes that are not "text signed by this log's key with this log's origin"
     WithUnknown, \* also submit under an unknown log id
-    EnvActions   \* environment steps that may happen between requests: subset of {"restart", "upgrade", "future", "legacyonly"}
+    EnvActions   \* environment steps that may happen between requests: subset of {"restart", "upgrade", "distribute", "future", "legacyonly"}
 
 VARIABLES stored,   \* [Logs -> CP \cup {None}]
           last,     \* last request and reply (observation)
@@ -91,6 +91,9 @@ NextUpdate ==
 (*   restart    : the process is stopped and started on the same store     *)
 (*   upgrade    : ... on the store as the pinned release left it (same     *)
 (*                rows, the release's schema and parameter binding)        *)
+(*   distribute : the witness' own REST distributor makes a pass (it reads  *)
+(*                every log's latest checkpoint, verifies it, pushes it):   *)
+(*                a READER inside the process, between two requests          *)
 (*   future     : the stored checkpoint of a log is the one an earlier     *)
 (*                incarnation cosigned while its clock ran ahead           *)
 (*   legacyonly : ... cosigned before the cosignature/v1 key joined the    *)
@@ -98,7 +101,7 @@ NextUpdate ==
 (* The abstract state keeps tree and extension; legacyonly drops a line.   *)
 (***************************************************************************)
 Restart(kind) ==
-    /\ kind \in EnvActions \cap {"restart", "upgrade"}
+    /\ kind \in EnvActions \cap {"restart", "upgrade", "distribute"}
     /\ last' = [a |-> "env", kind |-> kind, log |-> "-"]
     /\ UNCHANGED <<stored, ctr>>
 
